@@ -159,7 +159,8 @@ CHECKS = {
              "question with its own object), failure values for every adversarial call, refused Hclose leaves file "
              "and access ids usable, no stream and no attach count left after teardown, ASan. 8 000 / 150 000.",
         note="SD ids are positional names (released by SDend; numerically re-issued ids are valid); the AN id is the "
-             "file id; ids of other kinds are not passed to H-level/AN calls (known finding, three stored replays). "
+             "file id; ids of other kinds go to H-level and AN calls as well (the missing group checks were repaired, 7f4020c); besides "
+             "the one inquiry call per kind, 3-12 further entry points per interface are tried with every invalid id. "
              "Shadow run: every plan is executed a second time without its adversarial calls (scaffolding kept); "
              "the files of both runs must be byte-identical.",
         tech=TECH % ("", "oracle = live-handle table + failure-value checks + shadow run without the adversarial calls (byte-identical files) + sanitizer"),
